@@ -48,6 +48,7 @@ for typ, ctor, dele, dtype, dup in TX:
     w('''// retry callback: the packet held for retransmission goes out again as the same object (same message ID, same content)%s
 //@ func %s$1
 //@   nopanic [C25]
+//@   tags [C23]
 //@   requires [C25] conn: client != nil && client.conn != nil
 //@   requires [C17] holds_what_was_sent: %s
 //@   assigns %s
@@ -128,6 +129,7 @@ w("""
 //@   ensures [C17] rejected_fails: old(t.State) == %(s1)s && puback.ReturnCode != 0 && !old(finished(%(TB)s)) ==> finished(%(TB)s) && %(TB)s.err != nil
 //@ func (*publishQOS2Transaction).Pubrec
 //@   nopanic [C25]
+//@   tags [C23]
 //@   requires [C25] wf: t != nil && t.transaction != nil && ctxWF(t.client, t.transaction) && pubrec != nil && t.client != nil && t.client.conn != nil
 //@   let c = t.client
 //@   assigns t.State, t.Data, t.retryNum, t.RetryTransaction.timer, armed(t.RetryTransaction.timer), c.wireN, c.wire, c.tryN, c.try
@@ -219,6 +221,7 @@ w("""
 //@      (k != msgID ==> client.transactions.bypktID[k] == old(client.transactions.bypktID[k]))
 //@ func (*brokerPublishQOS2Transaction).Publish
 //@   nopanic [C25]
+//@   tags [C23]
 //@   requires [C25] wf: t != nil && t.client != nil && t.client.conn != nil && publish != nil
 //@   let c = t.client
 //@   assigns t.publish, c.wireN, c.wire, c.tryN, c.try
@@ -226,6 +229,7 @@ w("""
 //@   ensures [C17] pubrec_sent: c.tryN == old(c.tryN) + 1 && istype(c.try[old(c.tryN)], *pkts1.Pubrec) && c.try[old(c.tryN)].(*pkts1.Pubrec).messageID == publish.messageID
 //@ func (*brokerPublishQOS2Transaction).Pubrel
 //@   nopanic [C25]
+//@   tags [C23]
 //@   requires [C25] wf: t != nil && t.client != nil && cLite(t.client) && handlersWF(t.client.messageHandlers) && t.TransactionBase != nil && t.TransactionBase.done != nil &&
 //@      t.publish != nil && pubrel != nil
 //@   guarded [C29] registeredTopicsLock: registeredTopics
@@ -273,6 +277,7 @@ w("""
 //@   ensures [C25] keeps: sleepWF(t)
 //@ func (*sleepTransaction).wakeup
 //@   nopanic [C25]
+//@   tags [C23]
 //@   requires [C25] wf: sleepWF(t)
 //@   let c = t.client
 //@   assigns deref(c.state), t.state, t.timer, armed(t.timer), c.wireN, c.wire, c.tryN, c.try, t.TransactionBase.err, closed(t.TransactionBase.done), calls(t.TransactionBase.finally)
@@ -283,12 +288,14 @@ w("""
 //@   assigns armed(t.timer), t.TransactionBase.err, closed(t.TransactionBase.done), calls(t.TransactionBase.finally)
 //@ func (*sleepTransaction).Sleep
 //@   nopanic [C25]
+//@   tags [C23]
 //@   requires [C25] wf: sleepWF(t)
 //@   let c = t.client
 //@   assigns deref(c.state), t.disconnect, t.state, t.timer, armed(t.timer), c.wireN, c.wire, c.tryN, c.try, t.TransactionBase.err, closed(t.TransactionBase.done), calls(t.TransactionBase.finally)
 //@   ensures [C25] keeps: sleepWF(t)
 //@ func (*sleepTransaction).resendDisconnect
 //@   nopanic [C25]
+//@   tags [C23]
 //@   requires [C25] wf: sleepWF(t) && t.disconnect != nil && wfFromClient(box(*pkts1.Disconnect, t.disconnect))
 //@   let c = t.client
 //@   assigns t.disconnectResendNum, t.timer, armed(t.timer), c.wireN, c.wire, c.tryN, c.try, t.disconnect.Header.pktLength, t.TransactionBase.err, closed(t.TransactionBase.done), calls(t.TransactionBase.finally)
